@@ -18,7 +18,16 @@ import random
 from typing import Any, Dict, List, Optional, Tuple
 
 POOL = ['a', 'b', 'i', 'x', 'd', 'n']
-NS_NAMES = ['p', 'q']
+NS_NAMES = ['p', 'q', 'r', 's']
+
+
+def pick_ns(rng: random.Random) -> List[str]:
+    """a namespace path: mostly none or one level, sometimes two, three or four levels deep."""
+    r = rng.random()
+    depth = 0 if r < 0.5 else 1 if r < 0.76 else 2 if r < 0.9 else 3 if r < 0.97 else 4
+    if depth == 1:
+        return [rng.choice(NS_NAMES[:2])]
+    return NS_NAMES[:depth] if rng.random() < 0.7 else rng.sample(NS_NAMES, depth)
 
 
 class MacroDef:
@@ -84,7 +93,7 @@ class Gen:
         n_macros = rng.choice([2, 3, 4, 6])
         # macros are a DAG: macro k may only call macros with a larger index (no recursion)
         for k in range(n_macros):
-            ns = [] if rng.random() < 0.55 else ([rng.choice(NS_NAMES)] if rng.random() < 0.7 else [NS_NAMES[0], NS_NAMES[1]])
+            ns = pick_ns(rng)
             base = rng.choice(['m', 'f', 'g'])
             n_params = rng.choice([0, 1, 1, 2, 3])
             names = rng.sample(POOL, min(len(POOL), n_params + rng.choice([0, 1, 1, 2])))
@@ -117,7 +126,7 @@ class Gen:
         self.declared_by_macros = list(self.globals)
         for _ in range(rng.choice([1, 2, 3, 4])):
             base = rng.choice(POOL + ['t', 'u'])
-            ns = [] if rng.random() < 0.6 else [rng.choice(NS_NAMES)]
+            ns = pick_ns(rng)
             if (base, ns) not in self.globals:
                 self.globals.append((base, ns))
         for k in range(rng.choice([0, 1, 2])):
@@ -288,8 +297,13 @@ class Gen:
         if kind == 'global':
             full = leaf[1]
             parts = full.split('.')
-            if len(parts) > 1 and parts[:-1] == cur_ns and self.rng.random() < 0.6:
-                return '.' + parts[-1]
+            # relative spelling: k leading dots climb k-1 namespaces from the current one
+            target = parts[:-1]
+            if cur_ns[:len(target)] == target and (target or self.rng.random() < 0.3) and cur_ns and self.rng.random() < 0.6:
+                self.out.features['relative-names'] = self.out.features.get('relative-names', 0) + 1
+                if len(cur_ns) - len(target) >= 2:
+                    self.out.features['relative-names-3+dots'] = self.out.features.get('relative-names-3+dots', 0) + 1
+                return '.' * (len(cur_ns) - len(target) + 1) + parts[-1]
             return full
         raise ValueError(leaf)
 
@@ -305,10 +319,11 @@ class Gen:
         return f'({self.render_expr(e[2], m, cur_ns)} {e[1]} {self.render_expr(e[3], m, cur_ns)})'
 
     def callee_spelling(self, callee: MacroDef, cur_ns: List[str]) -> str:
-        if callee.ns and callee.ns == cur_ns and self.rng.random() < 0.6:
-            return '.' + callee.base
-        if callee.ns and len(cur_ns) == len(callee.ns) + 1 and cur_ns[:-1] == callee.ns and self.rng.random() < 0.5:
-            return '..' + callee.base
+        if cur_ns and cur_ns[:len(callee.ns)] == callee.ns and (callee.ns or self.rng.random() < 0.3) and self.rng.random() < 0.6:
+            self.out.features['relative-names'] = self.out.features.get('relative-names', 0) + 1
+            if len(cur_ns) - len(callee.ns) >= 2:
+                self.out.features['relative-names-3+dots'] = self.out.features.get('relative-names-3+dots', 0) + 1
+            return '.' * (len(cur_ns) - len(callee.ns) + 1) + callee.base
         return callee.full
 
     def render_stmt(self, st: Dict[str, Any], m: Optional[MacroDef], cur_ns: List[str], indent: str) -> str:
